@@ -133,8 +133,10 @@ fn check_flat(case: &Case, fl: &Flat, t: &mut Tally, wit: &dyn Fn(Value) -> Valu
     // ---- (b) each breakdown adds up to its total
     let b = "balance";
     let sum = |prefix: &str| sum_prefix(fl, prefix);
+    // breakdowns by service are sums over the steps of (share x flow): f32 accumulation over n steps
+    let rt = 4e-6 + 1.5e-7 * case.spec.n as f64;
     let mut ident = |name: &str, total: f64, parts: f64, abs: f64| {
-        if (total - parts).abs() > 4e-6 * abs.max(total.abs()) + 1e-7 {
+        if (total - parts).abs() > rt * abs.max(total.abs()) + 1e-7 {
             t.violation("C04.breakdown_does_not_add_up", format!("{name}: total {total} vs breakdown {parts}"), || wit(json!({"identity": name, "total": total, "breakdown_sum": parts})));
         }
         t.count("breakdown_identities_checked");
